@@ -220,14 +220,14 @@ inline IndexType adjust_point_at_index(const IndexType index, DenseMatrix& data,
             /* Try to change the current coordinate in positive direction */
             data(i, index) += learning_rate;
             new_error = compute_error_for_point(index, data, error_func_data);
-            if (new_error >= old_error)
+            if (!(new_error < old_error))
             {
                 /* Did not help - switching to negative direction */
                 data(i, index) -= 2 * learning_rate;
                 new_error = compute_error_for_point(index, data, error_func_data);
             }
-            if (new_error >= old_error)
-                /* Did not help again - reverting to beginning */
+            if (!(new_error < old_error))
+                /* Did not help again (or the error is not a number) - reverting to beginning */
                 data(i, index) += learning_rate;
             else
             {
@@ -274,7 +274,12 @@ void manifold_sculpting_embed(RandomAccessIterator begin, RandomAccessIterator e
          * by a factor of squishing_rate.
          */
         data.bottomRows(data.rows() - target_dimension) *= squishing_rate;
-        while (average_neighbor_distance(data, neighbors) < initial_average_distance)
+        /* Scaling the preserved dimensions can restore the average distance
+         * only if the neighbors are apart in these dimensions
+         */
+        const bool preserved_dimensions_vary =
+            average_neighbor_distance(data.topRows(target_dimension), neighbors) > 0;
+        while (preserved_dimensions_vary && average_neighbor_distance(data, neighbors) < initial_average_distance)
         {
             data.topRows(target_dimension) /= squishing_rate;
         }
